@@ -55,6 +55,11 @@ func newC15Env() *c15Env { return newC15EnvIdle(c15Idle) }
 
 // newC15EnvIdle: the proxies of every (or only the named) stacking with the C15 limits and the given idle limit.
 func newC15EnvIdle(idle time.Duration, only ...string) *c15Env {
+	return newC15EnvLimits(idle, c15Head, c15TLS, c15PP, only...)
+}
+
+// newC15EnvLimits: the same with the listener's own limits chosen by the caller.
+func newC15EnvLimits(idle, head, tlsHs, pp time.Duration, only ...string) *c15Env {
 	env := &c15Env{fwds: map[string]*fwd{}}
 	ca, _ := harnessCAs()
 	log := &hitLog{}
@@ -72,7 +77,7 @@ func newC15EnvIdle(idle time.Duration, only ...string) *c15Env {
 		if len(only) > 0 && only[0] != st {
 			continue
 		}
-		fc := fwdCfg{Name: "fwd", Localhost: "allow", IdleTimeout: idle, ReadHeaderTimeout: c15Head, TLSHandshake: c15TLS, PPTimeout: c15PP}
+		fc := fwdCfg{Name: "fwd", Localhost: "allow", IdleTimeout: idle, ReadHeaderTimeout: head, TLSHandshake: tlsHs, PPTimeout: pp}
 		switch st {
 		case "tls":
 			fc.TLS = true
